@@ -900,7 +900,7 @@ func main() {
 	harness.Main(harness.Spec{
 		ID:     "C12",
 		Rule:   "transactions and blocks of chaingen histories (all kinds, all eras). (1) for a sample of every transaction's exported leaf fields (reflection), the field is mutated and ID, derived output/contract/attestation IDs, FullHash, MerkleLeafHash and the signature hashes are compared before/after against the rule table changed / unchanged / either; (2) all derived IDs and signature hashes are labelled (kind, index, owner) in one table: equal values under different labels are collisions; (3) v1 signature hashes of transactions with inputs under each replay-prefix era; (4) block content mutations keeping the header: ID changes or ValidateBlock rejects. distinct = (version, field class, rule).",
-		Assume: []string{"exempt fields are exactly those the statement lists; the storage-proof object of a v2 resolution, an attestation's own signature and the never-transmitted revision payout are unconstrained ('either')", "signed v1 transactions without inputs are judged for era separation under a key of their own (known finding: siad-inherited design)"},
+		Assume: []string{"exempt fields are exactly those the statement lists; the storage-proof object of a v2 resolution (a changed proof of a non-empty contract is simply invalid), an attestation's own signature and the never-transmitted revision payout are unconstrained ('either') in the field sweep; the one case in which two storage-proof objects are both accepted with identical effects - an empty contract - is judged by a directed scenario", "signed v1 transactions without inputs are judged for era separation under a key of their own (known finding: siad-inherited design)"},
 		Batches: func(t string) int {
 			if t == "quick" {
 				return 16
